@@ -38,7 +38,7 @@ meta = {
     "breaks_property": pid,
     "summary": (head + " | " + para("WHAT", "CHANGE", "THE CHANGE"))[:900],
     "needs_to_manifest": para("NEEDS TO MANIFEST", "WHAT IT NEEDS", "PRECONDITION", "NEEDS"),
-    "wave": 3,
+    "wave": int(os.environ.get("SEED_WAVE","3")),
     "confirmed_by_lead": {
         "demo_passes_on_unchanged_tree": True, "patch_applies_and_builds": True, "existing_suite_still_passes": True, "demo_fails_with_patch": True,
         "how": "seedtest.py: scratch worktree of /repo HEAD under /var/tmp; go build ./pkg/... ./cmd/{bb_scheduler,bb_worker,bb_runner}; go test ./... (baseline packages ok); demo run with and without the patch (mode %s)" % rec.get("demo_mode"),
